@@ -312,7 +312,11 @@ func main() {
 	}
 
 	t0 := time.Now()
+	only := os.Getenv("C07_ONLY") // development aid: run a single generator
 	for _, g := range generators {
+		if only != "" && g.name != only {
+			continue
+		}
 		tg := time.Now()
 		g.fn(r)
 		res.Hit("gen_ms:" + g.name + ":" + lib.Itoa(int(time.Since(tg).Milliseconds())/100*100))
@@ -332,7 +336,7 @@ func main() {
 			missing = append(missing, id)
 		}
 	}
-	if len(missing) > 0 {
+	if len(missing) > 0 && only == "" {
 		res.Disagree("harness-coverage", missing, "every entry point exercised", "entry points without a single case")
 	}
 	res.Exhaustive = false
